@@ -57,7 +57,14 @@ class XmlEventHandler(XmlHandler):
             An instance of the class type representing the parsed content.
         """
         element_ns_map: dict = {}
+        ended: Any = None
         for event, element in context:
+            if ended is not None:
+                # The tail of an element is complete only when the next event
+                # arrives, it may continue in the next chunk of the source
+                self.end(ended)
+                ended = None
+
             if event == EventType.START:
                 self.parser.start(
                     self.clazz,
@@ -69,14 +76,7 @@ class XmlEventHandler(XmlHandler):
                 )
                 element_ns_map = {}
             elif event == EventType.END:
-                self.parser.end(
-                    self.queue,
-                    self.objects,
-                    element.tag,
-                    element.text,
-                    element.tail,
-                )
-                element.clear()
+                ended = element
             elif event == EventType.START_NS:
                 prefix, uri = element
                 prefix = prefix or None
@@ -86,7 +86,21 @@ class XmlEventHandler(XmlHandler):
             else:
                 raise XmlHandlerError(f"Unhandled event: `{event}`.")
 
+        if ended is not None:
+            self.end(ended)
+
         return self.objects[-1][1] if self.objects else None
+
+    def end(self, element: Any) -> None:
+        """Push the end event of an element to the main parser."""
+        self.parser.end(
+            self.queue,
+            self.objects,
+            element.tag,
+            element.text,
+            element.tail,
+        )
+        element.clear()
 
     def merge_parent_namespaces(self, ns_map: dict[str | None, str]) -> dict:
         """Merge the given prefix-URI map with the parent node map.
